@@ -29,9 +29,9 @@ class Lab:
 
 
 def _net(labels):
-    n = Network.__new__(Network)
+    # the real constructor (whatever state it sets up), then the reaction list as stub reactions
+    n = Network()
     n.reaction_list = [Lab(x) for x in labels]
-    n._reactants, n._products = set(), set()
     return n
 
 
@@ -174,9 +174,8 @@ def _real(sel, mode):
 
 
 def _real_untraced(sel, mode):
-    n = Network.__new__(Network)
+    n = Network()
     n.reaction_list = [POOL[i] for i in sel]
-    n._reactants, n._products = set(), set()
     d, idx, first = n.find_duplicate_reaction(mode)
     # the documented scan: a reaction is a duplicate of the first *kept* reaction it is equivalent to
     descs = [POOL_DESC[i] for i in sel]
